@@ -29,6 +29,17 @@ CLAIMED = {
         "(values surviving resize/grow, zero fill, aliasing, iteration order) is NOT decided.",
         technique="static analysis: interval entailment from must-facts over clang CFG, loop-shape invariants, API post-condition summaries",
     ),
+    "C05": dict(
+        text="Static analysis of the current source. Decides: (a) the lazy set-up typestate of the three request kinds that use the "
+        "distributable computation (value, gradient, sensitivity) by finite-domain abstract interpretation over the two set-up flags and "
+        "sensitivity_uses_same_projector(), for every entry state the flag invariant allows: the 'internal error' branch is unreachable, "
+        "the computation always runs with the set-up matching its projectors, no flag is read undefined, the invariant is restored - so "
+        "the set-up does not depend on which quantity is requested first; (b) every public set_* of the objective-function hierarchy that "
+        "overwrites a field invalidates already_set_up (comparison-before-overwrite idiom checked). All formula clauses of C05 (value, "
+        "gradient, sensitivity, Hessian, subset sums, penalised = unpenalised - prior) are numerical and NOT decided.",
+        technique="static analysis: finite-domain abstract interpretation of flag typestate over clang CFG; setter-invalidation "
+        "must-pass-through with idiom ordering",
+    ),
 }
 
 NOT_APPLICABLE = {
